@@ -31,6 +31,8 @@ struct Params {
     reliability: TransportReliability,
     fingerprint: bool,
     max_transactions: Option<usize>,
+    /// the optional builder calls in the order the caller made them
+    calls: Vec<&'static str>,
 }
 
 /// Same API as `stun_agent::StunClienteBuilder`
@@ -46,11 +48,13 @@ impl StunClienteBuilder {
             reliability,
             fingerprint: false,
             max_transactions: None,
+            calls: Vec::new(),
         })
     }
 
     pub fn with_max_transactions(mut self, max_transactions: usize) -> Self {
         self.0.max_transactions = Some(max_transactions);
+        self.0.calls.push("max");
         self
     }
 
@@ -62,11 +66,13 @@ impl StunClienteBuilder {
         self.0.user = Some(user_name.into());
         self.0.password = Some(password.into());
         self.0.mechanism = Some(mechanism);
+        self.0.calls.push("mech");
         self
     }
 
     pub fn with_fingerprint(mut self) -> Self {
         self.0.fingerprint = true;
+        self.0.calls.push("fp");
         self
     }
 
@@ -93,6 +99,7 @@ impl StunClienteBuilder {
             max_tx: 0,
             user: p.user.clone().unwrap_or_default(),
             password: p.password.clone().unwrap_or_default(),
+            order: 0,
         };
         match &p.reliability {
             TransportReliability::Reliable(t) => {
@@ -119,18 +126,33 @@ impl StunClienteBuilder {
             Some(CredentialMechanism::LongTerm) => cfg.mech = "lt".to_string(),
             None => {}
         }
-        // the real builder, for the result the caller sees
+        // the real builder, for the result the caller sees: same calls in the same order
         let mut rb = real_agent::StunClienteBuilder::new(p.reliability);
-        if let Some(m) = p.max_transactions {
-            rb = rb.with_max_transactions(m);
-        }
-        if let (Some(u), Some(w), Some(m)) = (&p.user, &p.password, &p.mechanism) {
-            rb = rb.with_mechanism(u.clone(), w.clone(), *m);
-        }
-        if p.fingerprint {
-            rb = rb.with_fingerprint();
+        for c in &p.calls {
+            rb = match *c {
+                "max" => rb.with_max_transactions(p.max_transactions.unwrap_or(10)),
+                "mech" => match (&p.user, &p.password, &p.mechanism) {
+                    (Some(u), Some(w), Some(m)) => rb.with_mechanism(u.clone(), w.clone(), *m),
+                    _ => rb,
+                },
+                _ => rb.with_fingerprint(),
+            };
         }
         let real = rb.build()?;
+        // the harness driver makes the calls in the same relative order (calls not made come last)
+        let mut first: Vec<&str> = Vec::new();
+        for c in p.calls.iter().chain(["max", "mech", "fp"].iter()) {
+            if !first.contains(c) {
+                first.push(c);
+            }
+        }
+        cfg.order = rustun_verif_harness::clientdrv::BUILDER_ORDERS
+            .iter()
+            .position(|o| o[..] == first[..])
+            .unwrap_or(0) as u8;
+        if p.calls.iter().filter(|c| **c == "max").count() > 1 || p.calls.iter().filter(|c| **c == "mech").count() > 1 {
+            return Ok(StunClient::unrecorded(real, "a builder call repeated"));
+        }
         cfg.max_tx = real.verif_snapshot().max_transactions;
         if !exact {
             return Ok(StunClient::unrecorded(real, "configuration not a whole number of microseconds"));
